@@ -105,6 +105,26 @@ def expression_nestings():
     return out
 
 
+def repeated_subexpressions():
+    """the SAME sub-expression (a translated string, a method call, a property read, a folded constant) in the sibling arms of one branching construct, before and
+    after it: whatever is computed in one arm is not available in the other"""
+    reps = [("tr", ("call", ("ident", "qsTr"), [("str", "Ready")])), ("call", ("call", ("member", ("ident", "a"), "label"), [])), ("read", ("member", ("ident", "a"), "s")),
+            ("fold", ("binary", "+", ("str", "a"), ("str", "b"))), ("arg", ("call", ("member", ("str", "%1"), "arg"), [("member", ("ident", "a"), "s")]))]
+    c = ("member", ("ident", "a"), "b")
+    c2 = ("member", ("ident", "b"), "b")
+    out = []
+    for name, e in reps:
+        star = ("binary", "+", e, ("str", "*"))
+        out.append((("binding_expr", ("ternary", c, star, e)), "repeat:%s:ternary" % name))
+        out.append((("binding_expr", ("ternary", c, e, ("ternary", c2, e, star))), "repeat:%s:ternary-nested" % name))
+        out.append((("binding_block", [("if", c, ("block", [("return", star)]), ("block", [("return", e)]))]), "repeat:%s:if-else" % name))
+        out.append((("binding_block", [("if", c, ("block", [("return", e)]), None), ("return", e)]), "repeat:%s:if-then-after" % name))
+        out.append((("binding_block", [("switch", ("member", ("ident", "a"), "i"), [(("int", 0), [("return", e)]), (("int", 1), [("return", star)])], (2, [("return", e)]))]), "repeat:%s:switch" % name))
+        out.append((("binding_expr", ("binary", "||", ("binary", "&&", c, ("binary", "==", e, ("str", "x"))), ("binary", "==", e, ("str", "y")))), "repeat:%s:logical" % name))
+        out.append((("binding_block", [("decl", "let", [("t", None, e)]), ("if", c, ("block", [("return", e)]), None), ("return", ("binary", "+", ("ident", "t"), e))]), "repeat:%s:before-and-inside" % name))
+    return out
+
+
 def scope_kind_programs():
     """an outer `let` / `const` x, a nested scope (block, if body, switch clause) declaring its own x with either keyword, and an assignment to x inside the nested
     scope or after it: the keyword that counts is the one of the declaration in force.  -> [(program, tag, accepted?)]"""
